@@ -102,13 +102,53 @@ def _judge(v, kind, module, files, res, cov):
             key += "-" + str(bad.get("res"))
         elif bad.get("e") == "table":
             key += "-" + str(bad.get("tmode"))
-        elif bad.get("e") == "done":
-            why = "client error %r, server error %r; " % (bad.get("cerr"), bad.get("serr"))
+        dn = next((e for e in run_ev if e.get("e") == "done"), {})
+        if kind == "wire" and bad.get("e") in ("dst", "done") and (dn.get("serr") or dn.get("cerr")):
+            # the upload itself failed: the payload did not arrive
+            first = dn.get("serr") if dn.get("serr") and dn.get("serr") != "Stopped" else dn.get("cerr")
+            key = "wire-failed-" + _slug(first)
+            why = "upload failed, client error %r, server error %r; " % (dn.get("cerr"), dn.get("serr"))
         v.violation(key, "recorded real execution is not a behaviour of %s: %s%s" % (module, why, vlib.explain_rejection(f, r["hw"], context=2)[:1500]),
                     {"kind": kind, "seed": vlib.seed(), "run": run_ev[0].get("run"), "cfg": run_ev[0].get("cfg"),
                      "rejected_event": _short(bad), "run_events": [_short(e) for e in run_ev[:60]]})
         nrej += 1
     return nrej
+
+
+def _validate_all(module, cfg, files, **kw):
+    """validate_traces, and for every rejected file validate the rest of it (from the run after the
+    rejected one) again, so that one misbehaving run does not hide the runs recorded behind it.
+    Returns (files, results) including the remainder files."""
+    allf, allr = [], []
+    todo = list(files)
+    for rnd in range(12):
+        if not todo:
+            break
+        res = vlib.validate_traces(module, cfg, todo, **kw)
+        nxt = []
+        for f, r in zip(todo, res):
+            allf.append(f)
+            allr.append(r)
+            if r["accepted"]:
+                continue
+            ev = vlib.read_ndjson(f)
+            i = (_last_l(r["out"]) or 1) - 2 if r["violated"] not in (None, "postcondition") else (r["hw"] or 1) - 1
+            k = max(0, i) + 1
+            while k < len(ev) and ev[k].get("e") != "reset":
+                k += 1
+            if k < len(ev):
+                p = "%s.rest%d" % (f.split(".rest")[0], rnd + 1)
+                with open(p, "w") as fh:
+                    for e in ev[k:]:
+                        fh.write(json.dumps(e) + "\n")
+                nxt.append(p)
+        todo = nxt
+    return allf, allr
+
+
+def _slug(s):
+    import re
+    return re.sub(r"[^a-z]+", "-", re.sub(r"\d+", "", (s or "").lower())).strip("-")[:48]
 
 
 def _short(e, n=80):
@@ -183,13 +223,13 @@ def run(tier, v):
     out = os.path.join(vlib.scratch(), "c04tv")
     s = vlib.run_driver(h, "c04_tv", out, {"shards": 16, "random": 1500 if quick else 40000})
     files = [os.path.join(out, "trace-%02d.ndjson" % i) for i in range(s["shards"])]
-    res = vlib.validate_traces("CodecTrace", "CodecTrace.cfg", files, timeout=3000, heap="1g")
+    files, res = _validate_all("CodecTrace", "CodecTrace.cfg", files, timeout=3000, heap="1g")
     _lap("call-level trace validation")
     cov["tv_runs"], cov["tv_events"] = s["runs"], s["events"]
     cov["tv_breakdown"] = {k[2:]: val for k, val in s.items() if k.startswith("n_")}
-    cov["tv_files_rejected"] = _judge(v, "tv", "Codec", files, res, cov)
+    cov["tv_runs_rejected"] = _judge(v, "tv", "Codec", files, res, cov)
     cov["tv_states"] = sum(x["distinct"] for x in res)
-    ev0 = vlib.read_ndjson(files[3])
+    ev0 = vlib.read_ndjson(files[3 % len(files)])
     k = next((i for i, e in enumerate(ev0) if e.get("e") == "fill"), 0)
     cov["samples"].append({"recorded_calls": [_short(e, 40) for e in vlib.run_of(ev0, k)[:14]]})
 
@@ -209,6 +249,8 @@ def run(tier, v):
         e["buf"] = e["buf"][:-1]
         return ev
     small = _truncate_runs(files[1], 600)
+    if not vlib.validate_trace("CodecTrace", "CodecTrace.cfg", small, heap="1g")["accepted"]:
+        small = None          # the real code already misbehaves in the sample: corruption tests would be vacuous
     st = {"write_out_corrupted": _selftest("CodecTrace", "CodecTrace.cfg", small, corrupt_out, heap="1g"),
           "fill_dropped": _selftest("CodecTrace", "CodecTrace.cfg", small, drop_fill, heap="1g"),
           "ret_short": _selftest("CodecTrace", "CodecTrace.cfg", small, lose_leader, heap="1g")}
@@ -217,14 +259,16 @@ def run(tier, v):
     wout = os.path.join(vlib.scratch(), "c04wire")
     w = vlib.run_driver(h, "c04_wire", wout, {"shards": 16, "uploads": 72 if quick else 720}, timeout=1500)
     wfiles = _nonempty([os.path.join(wout, "wire-%02d.ndjson" % i) for i in range(w["shards"])])
-    wres = vlib.validate_traces("CodecObs", "CodecObs.cfg", wfiles, timeout=3000, heap="1500m")
+    wfiles0 = wfiles
+    wfiles, wres = _validate_all("CodecObs", "CodecObs.cfg", wfiles, timeout=3000, heap="1500m")
     _lap("wire-level trace validation")
     cov["wire_uploads"], cov["wire_events"] = w["runs"], w["events"]
     cov["wire_uploads_ok"] = w.get("uploads_ok", 0)
     cov["wire_uploads_failed"] = w.get("uploads_failed", 0)
     cov["wire_client_writes"], cov["wire_client_bytes"] = w.get("client_writes", 0), w.get("client_bytes", 0)
     cov["wire_act_to_exit"] = w.get("act_to_exit", 0)
-    cov["wire_files_rejected"] = _judge(v, "wire", "CodecObs", wfiles, wres, cov)
+    cov["wire_runs_rejected"] = _judge(v, "wire", "CodecObs", wfiles, wres, cov)
+    wfiles = wfiles0
     cfgs = json.load(open(os.path.join(wout, "wire-cfgs.json")))
     cov["wire_matrix"] = sorted({"%s/comp=%s/proto=%d" % ("-b -e" if c["escape"] else "-b", c["comp"], c["proto"]) for c in cfgs})
     if not wfiles:
@@ -255,7 +299,27 @@ def run(tier, v):
         e = next(e for e in ev if e.get("e") == "dst" and len(e["bytes"]) > 0)
         e["bytes"][0] ^= 1
         return ev
-    wsample = next((f for f in wfiles if any(e.get("e") == "src" and e.get("comp") == "no" for e in vlib.read_ndjson(f))), wfiles[0])
+    # base of the corruption tests: a few uploads that succeeded, one of them uncompressed, accepted as recorded
+    good, have_no = [], False
+    for f in wfiles:
+        ev = vlib.read_ndjson(f)
+        i = 0
+        while i < len(ev) and len(good) < 5:
+            run_ev = vlib.run_of(ev, i)
+            dn = run_ev[-1]
+            if dn.get("e") == "done" and not dn.get("cerr") and not dn.get("serr"):
+                is_no = any(e.get("e") == "src" and e.get("comp") == "no" for e in run_ev) and any(is_data_cw(e) for e in run_ev)
+                if is_no or have_no or len(good) < 3:
+                    good.append(run_ev)
+                    have_no = have_no or is_no
+            i += len(run_ev)
+    wsample = os.path.join(vlib.scratch(), "selftest-base-wire.ndjson")
+    with open(wsample, "w") as fh:
+        for run_ev in sorted(good, key=lambda r: not any(e.get("comp") == "no" for e in r)):
+            for e in run_ev:
+                fh.write(json.dumps(e) + "\n")
+    if not good or not vlib.validate_trace("CodecObs", "CodecObs.cfg", wsample, heap="1500m")["accepted"]:
+        wsample = None
     st["wire_tilde_injected"] = _selftest("CodecObs", "CodecObs.cfg", wsample, tilde_on_wire, heap="1500m")
     st["wire_frame_dropped"] = _selftest("CodecObs", "CodecObs.cfg", wsample, drop_frame, heap="1500m")
     st["wire_saved_file_differs"] = _selftest("CodecObs", "CodecObs.cfg", wsample, wrong_file, heap="1500m")
@@ -263,7 +327,7 @@ def run(tier, v):
     cov["selftest_rejected"] = st
     if any(x is False for x in st.values()) or (not v.violations and not v.known_hit and not all(st.values())):
         raise vlib.Infra("binding self-test failed: a corrupted trace was accepted / not applicable: %s" % st)
-    if w.get("uploads_failed", 0) and not cov["wire_files_rejected"]:
+    if w.get("uploads_failed", 0) and not cov["wire_runs_rejected"]:
         raise vlib.Infra("an upload failed but no trace was rejected: " + str(w.get("last_failure")))
     cov["traces_validated_against_impl"] = s["runs"] + w["runs"] + m["replayed"]
     return cov
@@ -271,7 +335,9 @@ def run(tier, v):
 
 def _selftest(module, cfg, path, mutate, **kw):
     """True = corrupted trace rejected, False = accepted, None = the recorded trace has no event of
-    the kind the corruption needs (happens only when the real code already misbehaves)."""
+    the kind the corruption needs / is itself rejected (only when the real code already misbehaves)."""
+    if path is None:
+        return None
     try:
         return vlib.selftest_reject(module, cfg, path, mutate, **kw)
     except (StopIteration, IndexError):
